@@ -59,7 +59,7 @@ var initAllow = []string{
 	"errors", "io", "strconv", "strings", "bytes", "unicode/utf8", "encoding/binary", "math/bits", "math",
 	"sort", "sync", "sync/atomic", "internal/bytealg", "unicode", "net/textproto", "bufio", "slices", "cmp",
 	"internal/itoa", "internal/oserror", "io/fs", "encoding/base64", "container/heap", "container/list", "unicode/utf16",
-	"syscall", "internal/poll", "encoding/base64", "hash", "internal/stringslite", "net/http/internal/ascii", "net/http/internal", "golang.org/x/net/http/httpguts", "vendor/golang.org/x/net/http/httpguts",
+	"syscall", "internal/poll", "encoding/base64", "hash", "internal/stringslite", "compress/flate", "net/http/internal/ascii", "net/http/internal", "golang.org/x/net/http/httpguts", "vendor/golang.org/x/net/http/httpguts",
 }
 
 func packageNameOf(dir string) (string, error) {
